@@ -214,8 +214,10 @@ def check_dgram(f, res, own, cur, prev, now, store, over, table):
             for v in okvals:
                 if v not in vl:
                     swapped = v[:4] + v[5:6] + v[4:5]
-                    bad.append(("announce-port-host-order" if swapped in vl else "announce-lost",
-                                "accepted announce (ip, port) not returned by get_peers in network byte order"))
+                    if swapped in vl:
+                        bad.append(("announce-port-host-order", "accepted announce (ip, port) not returned by get_peers in network byte order"))
+                    else:
+                        bad.append(("announce-lost", "a peer whose (re-)announce was accepted less than 30 min before the last housekeeping is missing from get_peers"))
                     break
             for v in vl:
                 if v not in okvals and (v[:4] + v[5:6] + v[4:5]) not in okvals:
@@ -305,8 +307,10 @@ def oracle(case, line):
                 for v in okvals:
                     if v not in vals:
                         swapped = v[:4] + v[5:6] + v[4:5]
-                        kl = "announce-port-host-order" if swapped in vals else "announce-lost"
-                        bad.append((kl, "accepted announce (ip, port) not returned by get_peers in network byte order"))
+                        if swapped in vals:
+                            bad.append(("announce-port-host-order", "accepted announce (ip, port) not returned by get_peers in network byte order"))
+                        else:
+                            bad.append(("announce-lost", "a peer whose (re-)announce was accepted less than 30 min before the last housekeeping is missing from get_peers"))
                         break
             for v in vals:
                 if v not in okvals and ih not in over:
